@@ -172,6 +172,14 @@ def oracle(pystog, case, res):
         bad = bad & (o["r"] > 0)      # at r <= 0 the g(r) representation the filter works in holds only the conventional value
     if bad.any():
         return "returned real-space function is not the transform of the returned corrected function (lorch=%s omitted=%s)" % (case["lorch"], case["omitted"])
+    # ... and its uncertainty (the last return value) that of the same transform
+    with np.errstate(all="ignore"):
+        dg2_ = np.asarray(dg2, float)
+        bad_e = (np.abs(dg2_ - o["dg"]) > 1e-9 * (np.abs(dg2_) + np.abs(o["dg"]) + 1e-300)) & (o["r"] > 0) & np.isfinite(dg2_)
+    if bad_e.any():
+        j_ = int(np.flatnonzero(bad_e)[0])
+        return "returned real-space uncertainty %r at r=%r is not that of the transform of the returned corrected function (%r)" % (
+            float(o["dg"][j_]), float(o["r"][j_]), float(dg2_[j_]))
     if case["lorch"] or case["omitted"]:
         return None
     # ... and of an independent trapezoid sine quadrature of it (pure Python), for r > 0
